@@ -87,9 +87,55 @@ def run_units(units, opts, jobs=None):
     return results
 
 
+def real_replay_batch(items, timeout=600):
+    """items: [(unit, values, env)] -> list of replay results, one real-python process for all"""
+    if not items:
+        return []
+    reqs = [{'module': u.kcls.__module__, 'class': u.kcls.__name__, 'params': u.params, 'values': v, 'env': e} for u, v, e in items]
+    os.makedirs(os.path.join(OUT, 'replays', '.tmp'), exist_ok=True)
+    path = os.path.join(OUT, 'replays', '.tmp', 'batch-%d-%d.json' % (os.getpid(), int(time.time() * 1e6) % 10**9))
+    with open(path, 'w') as f:
+        json.dump(reqs, f)
+    env = dict(os.environ)
+    env['PYTHONPATH'] = REPO + os.pathsep + VERIF
+    try:
+        out = subprocess.run([REAL_PY, '-m', 'pyvc.replay', path], capture_output=True, text=True, timeout=timeout, env=env, cwd=VERIF)
+        try:
+            r = json.loads(out.stdout.strip().split('\n')[-1])
+            assert isinstance(r, list) and len(r) == len(reqs)
+            return r
+        except Exception:
+            return [{'harness_error': 'bad batch replay output: %s / %s' % (out.stdout[-300:], out.stderr[-800:])}] * len(reqs)
+    except subprocess.TimeoutExpired:
+        return [{'timeout': True}] * len(reqs)
+    finally:
+        try:
+            os.unlink(path)
+        except OSError:
+            pass
+
+
+def lenient_equal(a, b):
+    """compare two observations, ignoring parts either side could not represent ('<...>' markers)"""
+    if isinstance(a, str) and a.startswith('<') or isinstance(b, str) and b.startswith('<'):
+        return True
+    if isinstance(a, dict) and isinstance(b, dict):
+        if 'obj' in a and 'obj' in b:
+            fa, fb = a.get('fields', {}), b.get('fields', {})
+            return a['obj'] == b['obj'] and all(lenient_equal(fa[k], fb[k]) for k in fa if k in fb)
+        return all(lenient_equal(a[k], b[k]) for k in a if k in b)
+    if isinstance(a, list) and isinstance(b, list):
+        return len(a) == len(b) and all(lenient_equal(x, y) for x, y in zip(a, b))
+    if isinstance(a, bool) or isinstance(b, bool):
+        return bool(a) == bool(b)
+    if isinstance(a, (int, float)) and isinstance(b, (int, float)):
+        return a == b
+    return a == b
+
+
 def real_replay(unit, values, extra_env=None, timeout=120):
     """Run the contract against the real code under /venv/bin/python."""
-    req = {'module': unit.kcls.__module__, 'class': unit.kcls.__name__, 'params': unit.params, 'values': values}
+    req = {'module': unit.kcls.__module__, 'class': unit.kcls.__name__, 'params': unit.params, 'values': values, 'env': extra_env}
     os.makedirs(os.path.join(VERIF, 'replays', '.tmp'), exist_ok=True)
     path = os.path.join(VERIF, 'replays', '.tmp', 'req-%d-%d.json' % (os.getpid(), int(time.time() * 1e6) % 10**9))
     with open(path, 'w') as f:
@@ -97,8 +143,6 @@ def real_replay(unit, values, extra_env=None, timeout=120):
     env = dict(os.environ)
     env['PYTHONPATH'] = REPO + os.pathsep + VERIF
     env.pop('PYTHONHOME', None)
-    if extra_env:
-        env.update(extra_env)
     try:
         out = subprocess.run([REAL_PY, '-m', 'pyvc.replay', path], capture_output=True, text=True, timeout=timeout, env=env, cwd=VERIF)
         try:
@@ -193,6 +237,34 @@ def check_property(pid, tier, seed=0, replay_only=None):
                 if not handled:
                     a['status'] = 'sat'
                     violations.append((u, r, vc))
+
+    # encoder cross-check: one concrete input per explored path, pyvc's concrete run vs CPython on the real code
+    xitems = []
+    for u, r in zip(units, ures):
+        K = u.make()
+        for smp in (r.get('samples') or []):
+            env = K.replay_env(smp['values']) if hasattr(K, 'replay_env') else None
+            xitems.append((u, smp['values'], env, smp['pyvc']))
+    xres = real_replay_batch([(u, v, e) for u, v, e, _ in xitems])
+    xcheck_n = 0
+    for (u, v, e, mine), rp in zip(xitems, xres):
+        if rp.get('harness_error') or rp.get('timeout'):
+            problems.append((3, 'cross-check harness failed for %s: %s' % (u.name, json.dumps(rp)[:300])))
+            continue
+        if not rp.get('pre_ok', True) or 'observation' not in rp:
+            continue
+        xcheck_n += 1
+        if not lenient_equal(mine, rp['observation']):
+            problems.append((3, 'ENCODER DISAGREEMENT in %s on %s: pyvc %s vs CPython %s' % (u.name, json.dumps(v)[:200], json.dumps(mine)[:300], json.dumps(rp['observation'])[:300])))
+
+    # trusted models vs CPython
+    from . import selfcheck
+    try:
+        sc = selfcheck.run(REPO, seed, tier)
+    except Exception:
+        sc = {'ok': False, 'error': traceback.format_exc()[-800:]}
+    if not sc.get('ok'):
+        problems.append((3, 'model self-check against CPython failed: %s' % json.dumps(sc)[:600]))
 
     # canaries: must be refuted and the refutation must replay on the real code
     canary_ok = 0
@@ -289,6 +361,8 @@ def check_property(pid, tier, seed=0, replay_only=None):
             'inlined_callees_checked_through_their_bodies': sorted(inlined),
             'units': [{'unit': r['unit'], 'target': r['target'], 'paths': r['paths'], 'vcs': len(r['vcs']), 'wall_s': r.get('wall_s')} for r in ures],
             'canaries_refuted_and_replayed': canary_ok, 'canaries': len(canaries),
+            'semantics_crosscheck_inputs_compared_with_cpython': xcheck_n,
+            'model_selfcheck_vs_cpython': sc,
             'bounded': meta.get('bounded', []),
             'out_of_reach': meta.get('out_of_reach', []),
             'known_findings': sorted(set(known_lines.values())),
@@ -303,8 +377,8 @@ def check_property(pid, tier, seed=0, replay_only=None):
     os.makedirs(os.path.join(OUT, 'evidence'), exist_ok=True)
     with open(os.path.join(OUT, 'evidence', '%s.json' % pid), 'w') as f:
         json.dump(ev, f, indent=1, sort_keys=True)
-    print('%s %s: %d obligations (%d path-level VCs), %d discharged, %d known-finding, %d violation(s), %d problem(s); %d units, canaries %d/%d; %.1fs; exit %d' % (
-        pid, tier, obligations, total_vcs, discharged, known_n, n_viol, len(problems), len(units), canary_ok, len(canaries), time.time() - t0, exit_code))
+    print('%s %s: %d obligations (%d path-level VCs), %d discharged, %d known-finding, %d violation(s), %d problem(s); %d units, canaries %d/%d; cross-check %d; %.1fs; exit %d' % (
+        pid, tier, obligations, total_vcs, discharged, known_n, n_viol, len(problems), len(units), canary_ok, len(canaries), xcheck_n, time.time() - t0, exit_code))
     return exit_code
 
 
